@@ -1,30 +1,41 @@
-(* PM.Model.World — the socket-module seam as an explicit world: a script of outcomes consumed by
-   successive socket-level calls, an event trace, and socket identities. *)
+(* PM.Model.World — the socket-module seam as an explicit world.
+   * non-recv calls (getaddrinfo, socket, setsockopt, wrap_socket, settimeout, connect, sendall, close)
+     consume one item of w_script each (ONormal | OFail e);
+   * every sendall hands the bytes to the PEER, whose reply becomes available on that socket;
+   * every recv consumes one adversary CHOICE: deliver at most n of the available bytes, EINTR,
+     fail, or end of stream; a recv with nothing available and no fault scripted would block
+     (exception WouldBlock, which the theorems show unreachable under a faithful peer);
+   * w_buf is the local `buf` of the exchange in progress; w_discarded is a ghost accumulator of
+     bytes that were received and then dropped when an exchange ended. *)
 From Coq Require Import ZArith List Bool.
 From PM Require Import Lib.Py.
 Import ListNotations.
 Open Scope Z_scope.
 
-(* the outcome of one socket-module / socket-object call *)
-Inductive outcome :=
-| ONormal                      (* succeeds (recv: end of stream) *)
-| OFail (e : exn)              (* raises e *)
-| OData (b : list Z)           (* recv only: delivers b (b = [] is end of stream) *)
-| OEintr.                      (* recv only: OSError with errno EINTR *)
+Inductive outcome := ONormal | OFail (e : exn).
+Inductive choice := CChunk (n : Z) | CEintr | CFail (e : exn) | CEof.
 
 Inductive ev :=
-| EGai                                   (* getaddrinfo *)
+| EGai
 | ESocket (sid : Z) (addr : Z)           (* socket() for resolved address number addr (-1: AF_UNIX) *)
 | ESocketFail (addr : Z)
 | ESetopt (sid : Z) (opt : Z)            (* 1 TCP_NODELAY, 2 SO_KEEPALIVE, 3 KEEPIDLE, 4 KEEPINTVL, 5 KEEPCNT *)
-| EWrap (sid : Z) (wrapped : Z)          (* tls_context.wrap_socket(sid) -> wrapped ; wrapped = -1: it raised *)
+| EWrap (sid : Z) (wrapped : Z)          (* tls_context.wrap_socket(sid) -> wrapped ; -1: it raised *)
 | ETimeout (sid : Z) (which : Z)         (* settimeout: 0 = connect_timeout, 1 = timeout *)
 | EConnect (sid : Z) (addr : Z)
 | ESend (sid : Z) (b : list Z)
 | ERecv (sid : Z)
 | EClose (sid : Z).
 
-Record world := { w_script : list outcome; w_trace : list ev; w_next : Z; w_sock : option Z }.
+Section WithPeer.
+Variable P : Type.                                  (* peer state *)
+Variable peer : P -> list Z -> P * list Z.          (* bytes sent -> reply made available *)
+
+Record world := {
+  w_script : list outcome; w_choices : list choice; w_peer : P;
+  w_conns : list (Z * list Z);      (* socket id -> bytes produced by the peer and not yet delivered *)
+  w_buf : list Z; w_discarded : list Z;
+  w_trace : list ev; w_next : Z; w_sock : option Z }.
 
 Definition M (A : Type) : Type := world -> exc A * world.
 Definition ret {A} (a : A) : M A := fun w => (Ok a, w).
@@ -32,35 +43,70 @@ Definition throw {A} (e : exn) : M A := fun w => (Raise e, w).
 Definition mbind {A B} (m : M A) (k : A -> M B) : M B :=
   fun w => match m w with (Ok a, w') => k a w' | (Raise e, w') => (Raise e, w') end.
 Definition lift {A} (x : exc A) : M A := fun w => (x, w).
-Declare Scope world_scope.
-Delimit Scope world_scope with world.
-Notation "x <-- m ;; k" := (mbind m (fun x => k)) (at level 61, m at next level, right associativity) : world_scope.
-Notation "' p <-- m ;; k" := (mbind m (fun x => let p := x in k))
-  (at level 61, p pattern, m at next level, right associativity) : world_scope.
-Notation "m ;;; k" := (mbind m (fun _ => k)) (at level 61, right associativity) : world_scope.
-Open Scope world_scope.
 
-Definition log (e : ev) : M unit :=
-  fun w => (Ok tt, {| w_script := w_script w; w_trace := e :: w_trace w; w_next := w_next w; w_sock := w_sock w |}).
+Definition upd_script (w : world) (s : list outcome) : world :=
+  {| w_script := s; w_choices := w_choices w; w_peer := w_peer w; w_conns := w_conns w; w_buf := w_buf w;
+     w_discarded := w_discarded w; w_trace := w_trace w; w_next := w_next w; w_sock := w_sock w |}.
+Definition upd_choices (w : world) (c : list choice) : world :=
+  {| w_script := w_script w; w_choices := c; w_peer := w_peer w; w_conns := w_conns w; w_buf := w_buf w;
+     w_discarded := w_discarded w; w_trace := w_trace w; w_next := w_next w; w_sock := w_sock w |}.
+Definition upd_peer (w : world) (p : P) : world :=
+  {| w_script := w_script w; w_choices := w_choices w; w_peer := p; w_conns := w_conns w; w_buf := w_buf w;
+     w_discarded := w_discarded w; w_trace := w_trace w; w_next := w_next w; w_sock := w_sock w |}.
+Definition upd_conns (w : world) (c : list (Z * list Z)) : world :=
+  {| w_script := w_script w; w_choices := w_choices w; w_peer := w_peer w; w_conns := c; w_buf := w_buf w;
+     w_discarded := w_discarded w; w_trace := w_trace w; w_next := w_next w; w_sock := w_sock w |}.
+Definition upd_buf (w : world) (b : list Z) : world :=
+  {| w_script := w_script w; w_choices := w_choices w; w_peer := w_peer w; w_conns := w_conns w; w_buf := b;
+     w_discarded := w_discarded w; w_trace := w_trace w; w_next := w_next w; w_sock := w_sock w |}.
+Definition upd_discarded (w : world) (b : list Z) : world :=
+  {| w_script := w_script w; w_choices := w_choices w; w_peer := w_peer w; w_conns := w_conns w; w_buf := w_buf w;
+     w_discarded := b; w_trace := w_trace w; w_next := w_next w; w_sock := w_sock w |}.
+Definition upd_trace (w : world) (t : list ev) : world :=
+  {| w_script := w_script w; w_choices := w_choices w; w_peer := w_peer w; w_conns := w_conns w; w_buf := w_buf w;
+     w_discarded := w_discarded w; w_trace := t; w_next := w_next w; w_sock := w_sock w |}.
+Definition upd_next (w : world) (n : Z) : world :=
+  {| w_script := w_script w; w_choices := w_choices w; w_peer := w_peer w; w_conns := w_conns w; w_buf := w_buf w;
+     w_discarded := w_discarded w; w_trace := w_trace w; w_next := n; w_sock := w_sock w |}.
+Definition upd_sock (w : world) (s : option Z) : world :=
+  {| w_script := w_script w; w_choices := w_choices w; w_peer := w_peer w; w_conns := w_conns w; w_buf := w_buf w;
+     w_discarded := w_discarded w; w_trace := w_trace w; w_next := w_next w; w_sock := s |}.
+
+Definition log (e : ev) : M unit := fun w => (Ok tt, upd_trace w (e :: w_trace w)).
 Definition pop : M outcome :=
-  fun w => match w_script w with
-           | [] => (Ok ONormal, w)
-           | o :: r => (Ok o, {| w_script := r; w_trace := w_trace w; w_next := w_next w; w_sock := w_sock w |})
-           end.
-Definition fresh_sid : M Z :=
-  fun w => (Ok (w_next w), {| w_script := w_script w; w_trace := w_trace w; w_next := w_next w + 1; w_sock := w_sock w |}).
+  fun w => match w_script w with [] => (Ok ONormal, w) | o :: r => (Ok o, upd_script w r) end.
 Definition get_sock : M (option Z) := fun w => (Ok (w_sock w), w).
-Definition set_sock (s : option Z) : M unit :=
-  fun w => (Ok tt, {| w_script := w_script w; w_trace := w_trace w; w_next := w_next w; w_sock := s |}).
-Definition set_script (sc : list outcome) : M unit :=
-  fun w => (Ok tt, {| w_script := sc; w_trace := w_trace w; w_next := w_next w; w_sock := w_sock w |}).
-Definition get_script : M (list outcome) := fun w => (Ok (w_script w), w).
+Definition set_sock (s : option Z) : M unit := fun w => (Ok tt, upd_sock w s).
+Definition get_buf : M (list Z) := fun w => (Ok (w_buf w), w).
+Definition set_buf (b : list Z) : M unit := fun w => (Ok tt, upd_buf w b).
 
-(* a call that either succeeds or raises, as the script says *)
+Fixpoint conn_get (c : list (Z * list Z)) (sid : Z) : list Z :=
+  match c with [] => [] | (s, a) :: t => if s =? sid then a else conn_get t sid end.
+Fixpoint conn_set (c : list (Z * list Z)) (sid : Z) (a : list Z) : list (Z * list Z) :=
+  match c with [] => [(sid, a)] | (s, x) :: t => if s =? sid then (s, a) :: t else (s, x) :: conn_set t sid a end.
+
+(* a new socket object: fresh id, nothing available on it *)
+Definition fresh_sid : M Z :=
+  fun w => (Ok (w_next w), upd_conns (upd_next w (w_next w + 1)) (conn_set (w_conns w) (w_next w) [])).
+(* the TLS wrapper reads what arrives on the wrapped socket *)
+Definition fresh_wrapped (raw : Z) : M Z :=
+  fun w => (Ok (w_next w),
+            upd_conns (upd_next w (w_next w + 1))
+                      (conn_set (conn_set (w_conns w) (w_next w) (conn_get (w_conns w) raw)) raw [])).
+
+(* a non-recv call that succeeds or raises, as the script says *)
 Definition call (e : ev) : M unit :=
-  log e ;;; o <-- pop ;; match o with OFail x => throw x | _ => ret tt end.
+  mbind (log e) (fun _ => mbind pop (fun o => match o with OFail x => throw x | ONormal => ret tt end)).
+(* sock.sendall(b): on success the peer sees b and its reply becomes available on this socket *)
+Definition send (sid : Z) (b : list Z) : M unit :=
+  mbind (call (ESend sid b)) (fun _ => fun w =>
+    let '(p', reply) := peer (w_peer w) b in
+    (Ok tt, upd_conns (upd_peer w p') (conn_set (w_conns w) sid (conn_get (w_conns w) sid ++ reply)))).
+(* end of an exchange: the local buffer is dropped *)
+Definition discard : M unit :=
+  fun w => (Ok tt, upd_buf (upd_discarded w (w_discarded w ++ w_buf w)) []).
 
-(* try: m  except <class c> [as e]: h e     (h sees the world as m left it) *)
+(* try: m  except <class c> as e: h e *)
 Definition mtry {A} (m : M A) (c : exn) (h : exn -> M A) : M A :=
   fun w => match m w with
            | (Ok a, w') => (Ok a, w')
@@ -73,5 +119,24 @@ Definition mfinally {A} (m : M A) (f : M unit) : M A :=
            | (Raise e, w') => match f w' with (Ok _, w'') => (Raise e, w'') | (Raise e2, w'') => (Raise e2, w'') end
            end.
 Fixpoint mfor {A S} (l : list A) (body : A -> S -> M S) (s : S) : M S :=
-  match l with [] => ret s | x :: t => s' <-- body x s ;; mfor t body s' end.
-Fixpoint log_n (n : nat) (e : ev) : M unit := match n with O => ret tt | S k => log e ;;; log_n k e end.
+  match l with [] => ret s | x :: t => mbind (body x s) (fun s' => mfor t body s') end.
+Fixpoint log_n (n : nat) (e : ev) : M unit := match n with O => ret tt | S k => mbind (log e) (fun _ => log_n k e) end.
+End WithPeer.
+
+Arguments ret {P A}. Arguments throw {P A}. Arguments mbind {P A B}. Arguments lift {P A}.
+Arguments mtry {P A}. Arguments mfinally {P A}. Arguments mfor {P A S}.
+Arguments log {P}. Arguments pop {P}. Arguments get_sock {P}. Arguments set_sock {P}. Arguments get_buf {P}.
+Arguments set_buf {P}. Arguments fresh_sid {P}. Arguments fresh_wrapped {P}. Arguments call {P}. Arguments discard {P}.
+Arguments log_n {P}.
+Arguments w_script {P}. Arguments w_choices {P}. Arguments w_peer {P}. Arguments w_conns {P}. Arguments w_buf {P}.
+Arguments w_discarded {P}. Arguments w_trace {P}. Arguments w_next {P}. Arguments w_sock {P}.
+Arguments upd_script {P}. Arguments upd_choices {P}. Arguments upd_peer {P}. Arguments upd_conns {P}. Arguments upd_buf {P}.
+Arguments upd_discarded {P}. Arguments upd_trace {P}. Arguments upd_next {P}. Arguments upd_sock {P}.
+Arguments send {P}.
+
+Declare Scope world_scope.
+Delimit Scope world_scope with world.
+Notation "x <-- m ;; k" := (mbind m (fun x => k)) (at level 61, m at next level, right associativity) : world_scope.
+Notation "' p <-- m ;; k" := (mbind m (fun x => let p := x in k))
+  (at level 61, p pattern, m at next level, right associativity) : world_scope.
+Notation "m ;;; k" := (mbind m (fun _ => k)) (at level 61, right associativity) : world_scope.
